@@ -56,7 +56,7 @@ deriving DecidableEq, Repr
 inductive LogEv
   | scheduled (id : Nat) (cron : Cron) (offset : Int) (last : Nat)
   | released (id : Nat)
-  | took (w : Nat) (r : Run)
+  | took (w : Nat) (r : Run) (now : Int)
   | finished (w : Nat) (r : Run)
 
 structure Cfg where
@@ -150,7 +150,7 @@ def iter (repaired : Bool) (cfg : Cfg) (s : State) : State :=
       let p := dispatch cfg s.now s.queue s.busy
       let q := reinsert p.ins p.kept
       let s1 : State := { s with queue := q, busy := p.busy,
-                                 log := (p.runs.map (fun wr => LogEv.took wr.1 wr.2)).reverse ++ s.log }
+                                 log := (p.runs.map (fun wr => LogEv.took wr.1 wr.2 s.now)).reverse ++ s.log }
       match q with
       | [] => { s1 with when_ := none, mode := .idle }
       | m :: _ =>
